@@ -190,6 +190,7 @@ impl<'a> Gen<'a> {
                     let v = LOOP_VARS[self.loop_vars.len()];
                     let own_to = format!("{}+2", v);
                     let (from, to, step) = match self.rng.gen_range(0..7) {
+                        6 if self.rng.gen_bool(0.5) => ("5", "1", " STEP 0"),      // runs once: a zero step counts as positive
                         6 => ("1", own_to.as_str(), ""),       // the limit reads the loop variable's value from BEFORE the loop
                         0 => ("1", "3", ""),
                         1 => ("0", "2", " STEP 1"),
